@@ -8,6 +8,10 @@ type WebSocketConn struct {
 	EventEmitter
 
 	*websocket.Conn
+
+	// MaxPayload bounds the size of a message after decompression (0 = unbounded); the
+	// read limit of the connection itself counts the bytes on the wire only.
+	MaxPayload int64
 }
 
 func (t *WebSocketConn) Close() error {
